@@ -18,6 +18,7 @@ func init() {
 			"(D2) every non-empty ClientID returned by the two extractors is strings.ToLower(x) for an x that passed ValidateClientID on that path; (D3) protocol dispatch: the server-name extractor is reached only for HTTPS/TLS/QUIC and the path extractor only for HTTPS, every other protocol yields no ClientID; (D4) an extraction error leaves the hook only as a BeforeRequestError carrying a SERVFAIL reply, before any access check or cache write; " +
 			"(D5) shape guards: the server-name form requires an immediate-subdomain test of the client name against the configured name (strict mode: mismatch is an error), the DoH form requires the first segment to equal dns-query and exactly two segments. " +
 			"(D7) the client's server name reaches the ClientID extraction untransformed (no case mapping before validation); (D8) the Host header names the server only for requests that did not arrive over TLS. " +
+			"(D3, cont.) for a DNS-over-HTTPS request the dispatcher returns only after the URL path was examined, whatever else is configured. " +
 			"Not decided: correctness of the string surgery for look-alike suffixes, path cleaning and Host parsing (value-level).",
 		RuleText:    "Who-may-call enumeration over the module, provenance slices for cache key and value, CFG edge guards for the return shapes.",
 		Assumptions: []string{"netutil.IsImmediateSubdomain, netutil.ValidateHostnameLabel and path.Clean behave as documented (golibs/stdlib, trusted)", "dnsproxy assigns a unique RequestID per request"},
@@ -288,7 +289,7 @@ func c16Extractors(c *Ctx) {
 		})
 		var starts []core.Point
 		for e := range gNot {
-			starts = append(starts, core.Point{Block: e.From.Succs[e.Succ], Idx: 0})
+			starts = append(starts, core.AfterEdge(e))
 		}
 		found := true
 		if len(starts) > 0 {
@@ -300,6 +301,37 @@ func c16Extractors(c *Ctx) {
 		r.Undecided("C16-D5", "clientIDFromClientServerName", "-", "anchor not found or signature changed")
 	}
 
+	// for a DoH request the URL path is always examined: no way out of the dispatcher for protocol "https" goes
+	// around the path extractor (whatever else is or is not configured)
+	if dp := p.Fn("(*dnsforward.Server).clientIDFromDNSContext"); dp != nil {
+		notHTTPS, nP := core.CondEdges(dp, func(at core.Atom) (bool, bool) {
+			if at.Op != token.EQL && at.Op != token.NEQ {
+				return false, false
+			}
+			fr, _, ok := core.LoadedField(core.ResolveCellLoad(at.Base))
+			if !ok || fr.Field != "Proto" {
+				return false, false
+			}
+			sv, ok := core.ConstString(at.Other)
+			if !ok {
+				return false, false
+			}
+			if sv == "https" {
+				return true, at.Op == token.NEQ
+			}
+			if at.Op == token.EQL {
+				return true, true
+			}
+			return false, false
+		})
+		isPath := core.IsCallTo(false, "dnsforward.clientIDFromDNSContextHTTPS")
+		found, tr, _ := core.Reach(core.Query{From: []core.Point{core.Entry(dp)}, Target: core.IsReturn, Avoid: isPath, AvoidEdges: notHTTPS})
+		r.Check(nP > 0 && !found, "C16-D3", "doh-path-always-examined", p.FnPos(dp),
+			"for a DNS-over-HTTPS request the dispatcher returns only after the URL path was examined",
+			"the dispatcher can return for a DNS-over-HTTPS request without having looked at the URL path: a ClientID in the path is not attributed, and an invalid one is not refused", p.TraceString(tr))
+	} else {
+		r.Undecided("C16-D3", "clientIDFromDNSContext", "-", "anchor not found")
+	}
 	// D5 DoH form
 	hf := p.Fn("dnsforward.clientIDFromDNSContextHTTPS")
 	if hf != nil {
@@ -428,7 +460,7 @@ func c16Dispatch(c *Ctx) {
 	})
 	var starts []core.Point
 	for e := range gErr {
-		starts = append(starts, core.Point{Block: e.From.Succs[e.Succ], Idx: 0})
+		starts = append(starts, core.AfterEdge(e))
 	}
 	found := true
 	if len(starts) > 0 {
